@@ -13,6 +13,7 @@ require (
 	github.com/google/logger v1.1.1 // indirect
 	go.uber.org/multierr v1.11.0 // indirect
 	golang.org/x/crypto v0.17.0 // indirect
+	golang.org/x/sys v0.19.0 // indirect
 )
 
 replace github.com/google/go-tdx-guest => /repo
